@@ -88,7 +88,7 @@ package state
 //@ func (*ViewContexts).Shutdown
 //@   props C15 C16
 //@   modifies state.ViewContexts.shutdown, ghost:cancelled
-//@   requires w.parentCtxWithCancel != nil
+//@   objinv [fields] w.parentCtxWithCancel != nil && w.hvToContext != nil
 //@   ensures [down] w.shutdown
 //@   ensures [parent-cancelled] cancelled[w.parentCtxWithCancel.cancel]
 
